@@ -710,3 +710,109 @@ def near_tie(spec, log, rel=1e-9):
                 return True
             j += 1
     return False
+
+
+# --------------------------------------------------------------------------
+# the event queue as a binary heap in a list (SimulatorState.event_heap vs model/Sim.v bh_*)
+# --------------------------------------------------------------------------
+HEAP_PRELUDE = r"""
+Inductive hop := HPush (t : nat) (time : Q) | HRemove (t : nat) | HNext (until : Q).
+Definition hcell := (Q * nat * nat)%type.      (* time, insertion counter, trial id *)
+Fixpoint list_match2 {A B} (f : A -> B -> bool) (a : list A) (b : list B) : bool :=
+  match a, b with
+  | [], [] => true
+  | x :: a', y :: b' => f x y && list_match2 f a' b'
+  | _, _ => false
+  end.
+Definition cell_eqb (h : hentry) (c : hcell) : bool :=
+  let '(tm, n, t) := c in Qeqb (h_time h) tm && Nat.eqb (h_cnt h) n && Nat.eqb (h_trial h) t.
+Definition out_eqb (r : option hentry) (o : option hcell) : bool :=
+  match r, o with
+  | None, None => true
+  | Some h, Some c => cell_eqb h c
+  | _, _ => false
+  end.
+Fixpoint chk_heap_ops (s : bh_state) (l : list (hop * option hcell * list hcell)) : bool :=
+  match l with
+  | [] => true
+  | (o, out, arr) :: r =>
+      let '(res, s') := match o with
+                        | HPush t tm => (None, bhs_push s t EvStart tm)
+                        | HRemove t => (None, bhs_remove s t)
+                        | HNext u => bhs_next_until s u
+                        end in
+      out_eqb res out && list_match2 cell_eqb (fst s') arr && is_heap_b (fst s') && chk_heap_ops s' r
+  end.
+Definition chk_heap_case (l : list (hop * option hcell * list hcell)) : bool := chk_heap_ops ([], 0%nat) l.
+"""
+
+
+def coq_cell(c):
+    return "(%s, %s, %s)" % (q(c[0]), natlit(c[1]), natlit(c[2]))
+
+
+def coq_heap_case(steps):
+    items = []
+    for st in steps:
+        o = st["op"]
+        if o[0] == "push":
+            op = "HPush %s %s" % (natlit(o[1]), q(o[2]))
+        elif o[0] == "remove":
+            op = "HRemove %s" % natlit(o[1])
+        else:
+            op = "HNext %s" % q(o[1])
+        items.append("\n  (%s, %s, %s)" % (op, optlit(st["out"], coq_cell), lst([coq_cell(c) for c in st["arr"]])))
+    return lst(items)
+
+
+def run_heap_ops(ops):
+    """the real SimulatorState (events.py): push / remove_events / next_until; after every call the
+    public attribute event_heap (the heapq array) is read. Returns list of steps."""
+    import_backend()
+    from syne_tune.backend.simulator_backend.events import SimulatorState, StartEvent
+    st = SimulatorState()
+    steps = []
+    for o in ops:
+        out = None
+        if o[0] == "push":
+            st.push(StartEvent(trial_id=o[1]), event_time=o[2])
+        elif o[0] == "remove":
+            st.remove_events(o[1])
+        else:
+            r = st.next_until(o[1])
+            if r is not None:
+                tm, ev = r
+                out = [float(tm), None, int(ev.trial_id)]
+        arr = [[float(tm), int(cnt), int(ev.trial_id)] for tm, cnt, ev in st.event_heap]
+        steps.append(dict(op=list(o), out=out, arr=arr))
+    # the counter of a popped entry is not returned by next_until: it is the entry that disappeared
+    prev = []
+    for stp in steps:
+        if stp["out"] is not None:
+            gone = [c for c in prev if c not in stp["arr"]]
+            stp["out"][1] = gone[0][1] if len(gone) == 1 else -1
+        prev = stp["arr"]
+    return steps
+
+
+def check_heap_steps(steps):
+    """independent checker: the array is a heap after every call, and next_until pops the minimal
+    (time, insertion) key of the events queued before the call, if and only if it is due"""
+    viol = []
+    prev = []
+    for i, stp in enumerate(steps):
+        a = stp["arr"]
+        for j in range(1, len(a)):
+            if (a[(j - 1) // 2][0], a[(j - 1) // 2][1]) > (a[j][0], a[j][1]):
+                viol.append(("event_heap is not a heap after call %d %r: entry %d %r is smaller than its parent %r"
+                             % (i, stp["op"], j, a[j], a[(j - 1) // 2]), dict(defect="event_heap_not_a_heap", op=stp["op"][0])))
+                break
+        if stp["op"][0] == "next":
+            mn = min(prev, key=lambda c: (c[0], c[1])) if prev else None
+            want = mn if (mn is not None and mn[0] <= stp["op"][1]) else None
+            got = stp["out"]
+            if (want is None) != (got is None) or (want is not None and (want[0], want[1], want[2]) != (got[0], got[1], got[2])):
+                viol.append(("next_until(%r) at call %d returned %r, the queued event with the smallest (time, insertion) key is %r"
+                             % (stp["op"][1], i, got, mn), dict(defect="pop_not_minimum")))
+        prev = a
+    return viol
